@@ -605,3 +605,14 @@ fn c02_v4_recv_tcp_socket() {
     assert!(matches!(r, Err(Error::MissingAddr)));
     std::mem::forget(r);
 }
+
+/// Reset harness-side statics between native witness-search trials.
+fn verif_reset_statics() {
+    sock::reset();
+    unsafe {
+        EXPECT.active = false;
+        SENT_UDP_CHECKSUM = 0;
+        SENT_LEN = 0;
+    }
+    clock::set(0, 0, 0);
+}
